@@ -1,5 +1,6 @@
 from __future__ import annotations
 from typing import Any
+from sympy.printing.precedence import PRECEDENCE
 from sympy import Expr, Basic, Idx, Product
 
 
@@ -8,6 +9,9 @@ class IndexedProduct(Expr):  # type: ignore[misc]
     Represents unevaluated product for expression with indexed variables.
 
     """
+
+    # printers bracket the operand of a power or of a factorial according to its precedence
+    precedence = PRECEDENCE["Mul"]
 
     def __new__(cls, function: Basic, *index_base: Idx, **assumptions: Any) -> IndexedProduct:
         obj = Expr.__new__(cls, **assumptions)
